@@ -2,7 +2,7 @@
    Both execution loops of pydra.engine.submitter.Submitter, for every oracle (= every completion
    order, several completions per wake-up, every pattern of jobs "seen running"), every
    max_concurrent, every set of failing jobs, every graph listed in topological order. *)
-From Pydra Require Import Base.Prelude Base.SchedBase Model.Sched Spec.Sched Proofs.SchedG Proofs.SchedH Proofs.SchedI Proofs.SchedK Proofs.SchedL.
+From Pydra Require Import Base.Prelude Base.SchedBase Model.Sched Spec.Sched Proofs.SchedG Proofs.SchedH Proofs.SchedI Proofs.SchedK Proofs.SchedL Proofs.SchedN Proofs.SchedTermA.
 
 Section C15.
 Variable V : Type.
@@ -157,4 +157,65 @@ Example C15_hyps_nonvacuous :
               [mkStep [1] [true]; mkStep [0; 5] [false; true]] 40) = Finished /\
   List.length (launches (run_async unit (fun _ _ _ => tt) (fun _ => false) repaired g (Some 2)
               [mkStep [1] [true]; mkStep [0; 5] [false; true]] 40)) = 7.
+Proof. vm_compute. repeat split. Qed.
+
+(* ------------------------------------------------------------------------------------------------
+   Nodes with ZERO jobs anywhere, general statements (no hypothesis on the number of jobs of a node).
+
+   Sequential loop: every zero-job node costs one pass that runs nothing, so the bound becomes
+   2 * (|jobs| + |nodes|) + 3 passes (potential 2*finished + 2*started nodes + [a task is waiting]); then
+   the loop has ended by itself and every job ran exactly once.  (C15_sync_every_job_exactly_once, for
+   graphs without empty nodes, keeps its tighter bound |jobs| + 1.) *)
+Theorem C15_sync_every_job_exactly_once_any :
+  forall (V : Type) (body : nat -> nat -> list (list (option V)) -> V) (fails : job -> bool)
+         (vr : variant) (g : graph) (kmax : option nat),
+    fix14 vr = true -> wf_graph g -> (forall j, fails j = false) -> (forall k, kmax = Some k -> 1 <= k) ->
+    forall fuel, 2 * (List.length (all_jobs g) + List.length g) + 3 <= fuel ->
+    o_status (run_sync V body fails vr g kmax fuel) = Finished
+    /\ every_job_once g (event_log (run_sync V body fails vr g kmax fuel)).
+Proof.
+  intros V body fails vr g kmax F WF NF KP fuel B.
+  assert (S : o_status (run_sync V body fails vr g kmax fuel) = Finished) by (apply sync_terminates_any; assumption).
+  split; [exact S|apply sync_all_run; assumption].
+Qed.
+Print Assumptions C15_sync_every_job_exactly_once_any.
+
+Example C15_sync_any_nonvacuous :
+  let g := [mkNode 0 [] 0; mkNode 1 [0] 0; mkNode 2 [1] 2; mkNode 3 [] 1; mkNode 4 [2; 3] 0; mkNode 5 [4] 1] in
+  wf_graph g /\ 2 * (List.length (all_jobs g) + List.length g) + 3 <= 23
+  /\ o_status (run_sync unit (fun _ _ _ => tt) (fun _ => false) repaired g (Some 1) 23) = Finished
+  /\ launches (run_sync unit (fun _ _ _ => tt) (fun _ => false) repaired g (Some 1) 23) = [(2, 0); (2, 1); (3, 0); (5, 0)].
+Proof. vm_compute. repeat split; repeat constructor. Qed.
+
+(* Asynchronous loop: WITHOUT a hypothesis on empty nodes the corresponding statement is FALSE.  Each
+   zero-job node met while nothing is pending costs one poll of the stall block, and the stall detector
+   gives up after ten: eleven consecutive empty nodes end the run Stalled although no job fails, and their
+   consumer is never launched.  (On the real code the same workflow, 12 empty nodes under an asynchronous
+   worker, fails inside the stall detector's message builder: TypeError 'NoneType' object is not iterable;
+   the debug worker runs it.)  What does hold without the hypothesis: the run ends Finished or Stalled
+   (C14_full_total / SchedTermA.async_terminates_full), and C15_safety / C15_at_most_once / C15_all_run. *)
+Definition C15_async_any_statement : Prop :=
+  forall (V : Type) (body : nat -> nat -> list (list (option V)) -> V) (g : graph) (kmax : option nat)
+         (orc : list oracle_step) (fuel : nat),
+    wf_graph g -> (forall k, kmax = Some k -> 1 <= k) ->
+    2 * (List.length (all_jobs g) + List.length g) + 3 <= fuel ->
+    o_status (run_async V body (fun _ => false) repaired g kmax orc fuel) = Finished.
+
+Definition zero_chain : graph :=
+  map (fun i => mkNode i (match i with 0 => [] | S p => [p] end) 0) (seq 0 11) ++ [mkNode 11 [10] 1].
+
+Theorem C15_async_zero_chain_refuted : ~ C15_async_any_statement.
+Proof.
+  intros H.
+  pose proof (H unit (fun _ _ _ => tt) zero_chain None [] 40 eq_refl) as B.
+  assert (S : o_status (run_async unit (fun _ _ _ => tt) (fun _ => false) repaired zero_chain None [] 40) = Stalled)
+    by (vm_compute; reflexivity).
+  rewrite S in B. assert (X : Stalled = Finished); [|discriminate X].
+  apply B; [intros k E; discriminate E|vm_compute; repeat constructor].
+Qed.
+Print Assumptions C15_async_zero_chain_refuted.
+
+Example C15_async_zero_chain_detail :
+  let o := run_async unit (fun _ _ _ => tt) (fun _ => false) repaired zero_chain None [] 40 in
+  o_status o = Stalled /\ launches o = [] /\ mem_job (11, 0) (all_jobs zero_chain) = true.
 Proof. vm_compute. repeat split. Qed.
